@@ -35,7 +35,7 @@ Weights follow a Dirichlet distribution D(n;1,...,1)
 		}
 
 		al, _ := <-aligns.Achan
-		if aligns.Err != nil {
+		if al == nil {
 			err = aligns.Err
 			io.LogError(err)
 			return
